@@ -216,3 +216,23 @@ Definition helpful (k : nat) : list label :=
 
 Definition enabledb (fx : bool) (s : state) (l : label) : bool :=
   match step fx s l with Some _ => true | None => false end.
+
+(* ---------- progress measure of one Stop caller ---------- *)
+(* own steps left *)
+Definition own_rem (p : spc) : nat :=
+  match p with Enter => 4 | AfterSec1 _ => 3 | PastStarted => 2 | AfterSec2 _ => 1 | Returned => 0 end.
+(* steps the Run of generation g still has to take (3 = not yet invoked) *)
+Definition cyc_rem (s : state) (g : nat) : nat :=
+  match cyc_at (cycles s) g with
+  | None => 3
+  | Some cy => match cy_pc cy with Body => 2 | Exiting => 1 | Finished => 0 end
+  end.
+Definition measure (s : state) (c : caller) : nat :=
+  match c_pc c with
+  | Enter => 8
+  | Returned => 0
+  | p => own_rem p + cyc_rem s (c_tgt c)
+  end.
+
+(* the labels of caller k itself *)
+Definition own_labels (k : nat) : list label := [LSec1 k; LWaitStarted k; LSec2 k; LWaitDone k].
